@@ -448,4 +448,546 @@ theorem readLines_count (L : Leaf) (ls : List Bytes) : (readLines L ls).2.1 = (r
       · rfl
       · simp [ih]
 
+
+theorem takeWhile_prefix (ws rest : Bytes) (y : UInt8) (hws : ∀ c ∈ ws, reSpace c = true) (hy : reSpace y = false) :
+    (ws ++ y :: rest).takeWhile reSpace = ws := by
+  induction ws with
+  | nil => simp [List.takeWhile, hy]
+  | cons w ws ih =>
+    have hw : reSpace w = true := hws w (by simp)
+    simp only [List.cons_append, List.takeWhile, hw]
+    rw [ih (fun c hc => hws c (List.mem_cons_of_mem _ hc))]
+
+/-- First match of `c \s+ y` when nothing before it is white space. -/
+theorem findSplit_first (c y : UInt8) (nexts : List UInt8) (a ws rest : Bytes) (pos : Nat)
+    (ha : ∀ x ∈ a, reSpace x = false) (hc : reSpace c = false)
+    (hws : ∀ x ∈ ws, reSpace x = true) (hne : ws ≠ []) (hy : reSpace y = false) (hyn : nexts.contains y = true) :
+    findSplit c nexts (a ++ c :: (ws ++ y :: rest)) pos = some (pos + a.length, pos + a.length + 1 + ws.length + 1) := by
+  induction a generalizing pos with
+  | nil =>
+    simp only [List.nil_append, findSplit, beq_self_eq_true, if_true, takeWhile_prefix ws rest y hws hy, List.length_nil, Nat.add_zero]
+    have hd : (ws ++ y :: rest).drop ws.length = y :: rest := drop_left' ws (y :: rest)
+    rw [hd]
+    have hl : decide (ws.length ≥ 1) = true := by
+      cases ws with
+      | nil => exact absurd rfl hne
+      | cons _ _ => simp
+    simp only [hl, hyn, Bool.and_self, if_true]
+  | cons x xs ih =>
+    have hx : reSpace x = false := ha x (by simp)
+    have hxs : ∀ z ∈ xs, reSpace z = false := fun z hz => ha z (List.mem_cons_of_mem _ hz)
+    simp only [List.cons_append, findSplit]
+    have hrec := ih (pos + 1) hxs
+    have hlen : pos + 1 + xs.length = pos + (x :: xs).length := by simp; omega
+    by_cases hxc : (x == c) = true
+    · simp only [hxc, if_true]
+      -- what follows `x` starts with something that is not white space
+      have hhead : (xs ++ c :: (ws ++ y :: rest)).takeWhile reSpace = [] := by
+        cases xs with
+        | nil => simp [List.takeWhile, hc]
+        | cons z zs => simp [List.takeWhile, hxs z (by simp)]
+      rw [hhead]
+      simp only [List.length_nil, List.drop_zero]
+      cases hxx : xs ++ c :: (ws ++ y :: rest) with
+      | nil => simp at hxx
+      | cons q qs =>
+        rw [hxx] at hrec
+        have hz : (decide (0 ≥ 1) && nexts.contains q) = false := by simp
+        simp only [hz, Bool.false_eq_true, if_false, hrec, List.length_cons, Option.some.injEq, Prod.mk.injEq]
+        constructor <;> omega
+    · simp only [hxc, Bool.false_eq_true, if_false]
+      rw [hrec]
+      simp only [List.length_cons, Option.some.injEq, Prod.mk.injEq]
+      constructor <;> omega
+
+/-! ### More laws: printed predicates contain no white space (IDs of the documented domain have none) -/
+
+structure LeafLaws2 (L : Leaf) : Prop extends LeafLaws L where
+  quote_noSpace : ∀ i, (∀ c ∈ i, reSpace c = false) → ∀ c ∈ L.quote i, reSpace c = false
+  time_noSpace : ∀ t, ∀ c ∈ L.fmtTime t, reSpace c = false
+
+def noSpace (s : Bytes) : Prop := ∀ c ∈ s, reSpace c = false
+
+theorem getLast?_drop (l : Bytes) (n : Nat) (h : l.drop n ≠ []) : (l.drop n).getLast? = l.getLast? := by
+  induction l generalizing n with
+  | nil => simp at h
+  | cons x xs ih =>
+    cases n with
+    | zero => rfl
+    | succ n =>
+      simp only [List.drop_succ_cons] at h ⊢
+      rw [ih n h]
+      cases xs with
+      | nil => simp at h
+      | cons y ys => simp [List.getLast?_cons_cons]
+
+/-- A text that ends with ']' is never a literal. -/
+theorem parseLit_none_of_last_rb (L : Leaf) (s : Bytes) (ht : trim s = s) (hl : s.getLast? = some rb) : parseLit L s = none := by
+  unfold parseLit
+  simp only [ht]
+  split
+  · rfl
+  · split
+    · rfl
+    · split
+      · rfl
+      · rename_i idx hidx
+        split
+        · rfl
+        · -- the text after the separator is a suffix of s: empty, or ending with ']'
+          have key : ∀ name : Bytes, name ≠ [] → name.getLast? ≠ some rb → (s.drop (idx + sepLit.length) == name) = false := by
+            intro name hne hlast
+            simp only [beq_eq_false_iff_ne, ne_eq]
+            intro e
+            have hd : s.drop (idx + sepLit.length) ≠ [] := by rw [e]; exact hne
+            have := getLast?_drop s (idx + sepLit.length) hd
+            rw [e, hl] at this
+            exact hlast this
+          have k1 := key [98, 111, 111, 108] (by decide) (by decide)
+          have k2 := key [105, 110, 116, 54, 52] (by decide) (by decide)
+          have k3 := key [102, 108, 111, 97, 116, 54, 52] (by decide) (by decide)
+          have k4 := key [116, 101, 120, 116] (by decide) (by decide)
+          have k5 := key [98, 108, 111, 98] (by decide) (by decide)
+          simp only [k1, k2, k3, k4, k5, Bool.false_eq_true, if_false]
+
+/-- A text that starts with '"' is never a node. -/
+theorem parseNode_none_of_head_dq (s : Bytes) (ht : trim s = s) (hh : s.head? = some dq) : parseNode s = none := by
+  unfold parseNode
+  simp only [ht]
+  split
+  · rfl
+  · cases s with
+    | nil => simp at hh
+    | cons c cs =>
+      simp only [List.head?_cons, Option.some.injEq] at hh
+      subst hh
+      have h1 : (dq == slash) = false := by decide
+      have h2 : (dq == underscore) = false := by decide
+      simp only [h1, h2, Bool.false_eq_true, if_false]
+
+/-- Shape of a printed predicate: a quote, no white space inside, a closing bracket. -/
+theorem printPred_shape (L : Leaf) (hL : LeafLaws2 L) (p : Pred) (hid : noSpace p.id) :
+    ∃ body, printPred L p = dq :: (body ++ [rb]) ∧ noSpace (dq :: body) := by
+  cases p with
+  | imm i =>
+    obtain ⟨b, hq⟩ := hL.quote_shape i
+    have hns := hL.quote_noSpace i hid
+    refine ⟨b ++ [dq] ++ [64, 91], ?_, ?_⟩
+    · simp [printPred, hq]
+    · intro c hc
+      simp only [List.mem_cons, List.mem_append, List.mem_nil_iff, or_false] at hc
+      rcases hc with rfl | (hc | rfl) | rfl | rfl
+      · decide
+      · exact hns c (by rw [hq]; simp [hc])
+      · decide
+      · decide
+      · decide
+  | tmp i t =>
+    obtain ⟨b, hq⟩ := hL.quote_shape i
+    have hns := hL.quote_noSpace i hid
+    have hts := hL.time_noSpace t
+    refine ⟨b ++ [dq] ++ [64, 91] ++ L.fmtTime t, ?_, ?_⟩
+    · simp [printPred, hq]
+    · intro c hc
+      simp only [List.mem_cons, List.mem_append, List.mem_nil_iff, or_false] at hc
+      rcases hc with rfl | ((hc | rfl) | rfl | rfl) | hc
+      · decide
+      · exact hns c (by rw [hq]; simp [hc])
+      · decide
+      · decide
+      · decide
+      · exact hts c hc
+
+/-! ### Splitting at a separator -/
+
+theorem splitOn_cons_sep (sep : UInt8) (b : Bytes) : splitOn sep (sep :: b) = [] :: splitOn sep b := by
+  simp [splitOn]
+
+theorem splitOn_ne_nil (sep : UInt8) (b : Bytes) : splitOn sep b ≠ [] := by
+  induction b with
+  | nil => simp [splitOn]
+  | cons c cs ih =>
+    simp only [splitOn, List.foldr_cons] at ih ⊢
+    split
+    · simp
+    · split <;> simp
+
+theorem splitOn_cons_other (sep c : UInt8) (b : Bytes) (h : (c == sep) = false) :
+    splitOn sep (c :: b) = (c :: (splitOn sep b).headD []) :: (splitOn sep b).tail := by
+  have hne := splitOn_ne_nil sep b
+  simp only [splitOn, List.foldr_cons, h, Bool.false_eq_true, if_false] at hne ⊢
+  cases hs : List.foldr (fun c acc => if (c == sep) = true then [] :: acc else
+      match acc with
+      | [] => [[c]]
+      | a :: rest => (c :: a) :: rest) [[]] b with
+  | nil => exact absurd hs hne
+  | cons a rest => simp
+
+theorem splitOn_append_sep (sep : UInt8) (a b : Bytes) (h : sep ∉ a) : splitOn sep (a ++ sep :: b) = a :: splitOn sep b := by
+  induction a with
+  | nil => exact splitOn_cons_sep sep b
+  | cons c cs ih =>
+    simp only [List.mem_cons, not_or] at h
+    have hc : (c == sep) = false := by simp only [beq_eq_false_iff_ne, ne_eq]; exact fun e => h.1 e.symm
+    rw [List.cons_append, splitOn_cons_other sep c _ hc, ih h.2]
+    simp
+
+/-! ### Blobs -/
+
+theorem splitOn_no_sep (sep : UInt8) (a : Bytes) (h : sep ∉ a) : splitOn sep a = [a] := by
+  induction a with
+  | nil => simp [splitOn]
+  | cons c cs ih =>
+    simp only [List.mem_cons, not_or] at h
+    have hc : (c == sep) = false := by simp only [beq_eq_false_iff_ne, ne_eq]; exact fun e => h.1 e.symm
+    rw [splitOn_cons_other sep c _ hc, ih h.2]
+    simp
+
+theorem intercalate_cons_cons (sep x y : Bytes) (rest : List Bytes) :
+    List.intercalate sep (x :: y :: rest) = x ++ sep ++ List.intercalate sep (y :: rest) := by
+  simp [List.intercalate, List.intersperse]
+
+theorem splitOn_intercalate (ds : List Bytes) (hne : ds ≠ []) (h : ∀ d ∈ ds, (32 : UInt8) ∉ d) :
+    splitOn 32 (List.intercalate [32] ds) = ds := by
+  induction ds with
+  | nil => exact absurd rfl hne
+  | cons d rest ih =>
+    cases rest with
+    | nil =>
+      have : List.intercalate [32] [d] = d := by simp [List.intercalate, List.intersperse]
+      rw [this, splitOn_no_sep 32 d (h d (by simp))]
+    | cons y ys =>
+      rw [intercalate_cons_cons]
+      have e : d ++ [32] ++ List.intercalate [32] (y :: ys) = d ++ 32 :: List.intercalate [32] (y :: ys) := by simp
+      rw [e, splitOn_append_sep 32 _ _ (h d (by simp)), ih (by simp) (fun x hx => h x (List.mem_cons_of_mem _ hx))]
+
+theorem digits_no_space (n : Nat) : (32 : UInt8) ∉ digits n := by
+  intro hm
+  have := (digits_spec n).2.1
+  rw [List.all_eq_true] at this
+  have := this 32 hm
+  revert this; decide
+
+theorem parseByte_digits (x : UInt8) : parseByte (digits x.toNat) = some x := by
+  obtain ⟨h1, h2, h3⟩ := digits_spec x.toNat
+  unfold parseByte
+  have he : (digits x.toNat).isEmpty = false := by
+    cases hd : digits x.toNat with
+    | nil => exact absurd hd h3
+    | cons _ _ => rfl
+  have hle : x.toNat ≤ 255 := by have := x.toNat_lt; omega
+  simp only [he, h2, Bool.not_true, Bool.or_false, Bool.false_eq_true, if_false, h1, hle, if_true, Option.some.injEq]
+  exact UInt8.ofNat_toNat
+
+theorem mapM_parseByte (bs : Bytes) : (bs.map fun x => digits x.toNat).mapM parseByte = some bs := by
+  induction bs with
+  | nil => rfl
+  | cons b bs ih =>
+    simp only [List.map_cons, List.mapM_cons, parseByte_digits, ih, bind, Option.bind, pure]
+
+theorem parseLit_printLit_blob (L : Leaf) (bs : Bytes) : parseLit L (printLit L (.blob bs)) = some (.blob bs) := by
+  let inner := List.intercalate [32] (bs.map fun x => digits x.toNat)
+  have hcut := parseLit_cut L ([91] ++ inner ++ [rb]) [98, 108, 111, 98] (by decide) (by decide) (by intro c hc; cases hc; decide)
+  unfold parseLit
+  have hp : printLit L (.blob bs) = (dq :: ([91] ++ inner ++ [rb])) ++ sepLit ++ [98, 108, 111, 98] := by simp [printLit, inner]
+  rw [hp]
+  simp only [hcut.1, hcut.2.1, hcut.2.2.1, hcut.2.2.2]
+  have h1 : ((dq :: ([91] ++ inner ++ [rb])) ++ sepLit ++ [98, 108, 111, 98]).isEmpty = false := by simp
+  have h2 : ((dq :: ([91] ++ inner ++ [rb])) ++ sepLit ++ [98, 108, 111, 98]).head? = some dq := by simp
+  have h3 : ¬ (([91] ++ inner ++ [rb]).length + 1 < 1) := by omega
+  simp only [h1, h2, h3, Bool.false_eq_true, if_false, bne_self_eq_false]
+  have e1 : (([98, 108, 111, 98] : Bytes) == [98, 111, 111, 108]) = false := by decide
+  have e2 : (([98, 108, 111, 98] : Bytes) == [105, 110, 116, 54, 52]) = false := by decide
+  have e3 : (([98, 108, 111, 98] : Bytes) == [102, 108, 111, 97, 116, 54, 52]) = false := by decide
+  have e4 : (([98, 108, 111, 98] : Bytes) == [116, 101, 120, 116]) = false := by decide
+  have e5 : (([98, 108, 111, 98] : Bytes) == [98, 108, 111, 98]) = true := by decide
+  simp only [e1, e2, e3, e4, e5, Bool.false_eq_true, if_false, if_true]
+  have hlen : ¬ (([91] ++ inner ++ [rb]).length < 2) := by simp
+  have hhead : ([91] ++ inner ++ [rb]).head? = some 91 := by simp
+  have hlast : ([91] ++ inner ++ [rb]).getLast? = some rb := getLast?_append_singleton _ _
+  simp only [hlen, hhead, hlast, decide_false, bne_self_eq_false, Bool.or_self, Bool.false_eq_true, if_false]
+  have hvals : (([91] ++ inner ++ [rb]).drop 1).take (([91] ++ inner ++ [rb]).length - 2) = inner := by
+    have e : ([91] ++ inner ++ [rb]).drop 1 = inner ++ [rb] := by simp
+    have l : ([91] ++ inner ++ [rb]).length - 2 = inner.length := by simp
+    rw [e, l, take_left']
+  rw [hvals]
+  cases bs with
+  | nil => simp [inner, List.intercalate]
+  | cons b rest =>
+    have hne : (List.map (fun x => digits x.toNat) (b :: rest)) ≠ [] := by simp
+    have hinner_ne : inner.isEmpty = false := by
+      have hd := (digits_spec b.toNat).2.2
+      cases hdb : digits b.toNat with
+      | nil => exact absurd hdb hd
+      | cons c cs =>
+        cases rest with
+        | nil => simp [inner, List.intercalate, List.intersperse, hdb]
+        | cons y ys => simp [inner, intercalate_cons_cons, hdb]
+    simp only [hinner_ne, Bool.false_eq_true, if_false]
+    have hs := splitOn_intercalate (List.map (fun x => digits x.toNat) (b :: rest)) hne
+      (by intro d hd; obtain ⟨x, _, rfl⟩ := List.mem_map.mp hd; exact digits_no_space _)
+    simp only [inner] at hs ⊢
+    rw [hs, mapM_parseByte]
+    rfl
+
+/-! ### Objects -/
+
+def LitOK : Lit → Prop
+  | .int i => IsI64 i
+  | _ => True
+
+def ObjOK : Obj → Prop
+  | .node n => NodeOK n
+  | .pred _ => True
+  | .lit l => LitOK l
+
+theorem printLit_form (L : Leaf) (l : Lit) : ∃ v tname, printLit L l = (dq :: v) ++ sepLit ++ tname ∧ dq ∉ tname ∧ tname ≠ [] ∧
+    (∀ c, tname.getLast? = some c → asciiSpace c = false) := by
+  cases l with
+  | bool b => exact ⟨(if b then trueBytes else falseBytes), [98, 111, 111, 108], by simp [printLit], by decide, by decide, by intro c hc; cases hc; decide⟩
+  | int i => exact ⟨fmtInt i, [105, 110, 116, 54, 52], by simp [printLit], by decide, by decide, by intro c hc; cases hc; decide⟩
+  | float b => exact ⟨L.fmtFloat b, [102, 108, 111, 97, 116, 54, 52], by simp [printLit], by decide, by decide, by intro c hc; cases hc; decide⟩
+  | text t => exact ⟨t, [116, 101, 120, 116], by simp [printLit], by decide, by decide, by intro c hc; cases hc; decide⟩
+  | blob bs => exact ⟨[91] ++ (List.intercalate [32] (bs.map fun x => digits x.toNat)) ++ [rb], [98, 108, 111, 98], by simp [printLit], by decide, by decide,
+      by intro c hc; cases hc; decide⟩
+
+theorem parseLit_printLit (L : Leaf) (hL : LeafLaws L) (l : Lit) (h : LitOK l) : parseLit L (printLit L l) = some l := by
+  cases l with
+  | bool b => exact parseLit_printLit_bool L b
+  | int i => exact parseLit_printLit_int L i h
+  | float b => exact parseLit_printLit_float L hL b
+  | text t => exact parseLit_printLit_text L t
+  | blob bs => exact parseLit_printLit_blob L bs
+
+theorem parseObject_printObj (L : Leaf) (hL : LeafLaws L) (o : Obj) (h : ObjOK o) : parseObject L (printObj L o) = some o := by
+  unfold parseObject parseObjectWith
+  cases o with
+  | node n => simp only [printObj, parseNode_printNode n h]
+  | lit l =>
+    obtain ⟨v, tname, hf, hd, hne, hlast⟩ := printLit_form L l
+    have hcut := parseLit_cut L v tname hd hne hlast
+    have hn : parseNode (printLit L l) = none := by
+      rw [hf]; exact parseNode_none_of_head_dq _ hcut.1 (by simp)
+    simp only [printObj, hn, parseLit_printLit L hL l h]
+  | pred p =>
+    obtain ⟨body, hq⟩ := hL.quote_shape p.id
+    -- a printed predicate starts with a quote and ends with ']'
+    have hhead : (printPred L p).head? = some dq := by cases p <;> simp [printPred, Pred.id, hq] at hq ⊢ <;> simp [hq]
+    have hlast : (printPred L p).getLast? = some rb := by
+      cases p with
+      | imm i =>
+        have : printPred L (.imm i) = (L.quote i ++ [64, 91]) ++ [rb] := by simp [printPred]
+        rw [this]; exact getLast?_append_singleton _ _
+      | tmp i t =>
+        have : printPred L (.tmp i t) = (L.quote i ++ [64, 91] ++ L.fmtTime t) ++ [rb] := by simp [printPred]
+        rw [this]; exact getLast?_append_singleton _ _
+    have htrim : trim (printPred L p) = printPred L p := by
+      apply trim_id
+      · intro c hc; rw [hhead] at hc; cases hc; decide
+      · intro c hc; rw [hlast] at hc; cases hc; decide
+    have hn := parseNode_none_of_head_dq _ htrim hhead
+    have hl := parseLit_none_of_last_rb L _ htrim hlast
+    simp only [printObj, hn, hl, parsePred_printPred L hL p, Option.map_some]
+
+/-! ### Triples -/
+
+theorem printObj_head (L : Leaf) (hL : LeafLaws L) (o : Obj) (h : ObjOK o) :
+    ∃ oh orest, printObj L o = oh :: orest ∧ [slash, dq].contains oh = true ∧ reSpace oh = false ∧
+      (∀ c, (oh :: orest).getLast? = some c → asciiSpace c = false) := by
+  cases o with
+  | node n =>
+    obtain ⟨ty, id⟩ := n
+    have hty := h.ty
+    simp only at hty
+    have hhead : ty.head? = some slash := by
+      simp only [validType, Bool.and_eq_true, beq_iff_eq] at hty
+      exact hty.1.1.2
+    obtain ⟨trest, rfl⟩ : ∃ r, ty = slash :: r := by
+      cases ty with
+      | nil => simp at hhead
+      | cons c r => simp only [List.head?_cons, Option.some.injEq] at hhead; exact ⟨r, by rw [hhead]⟩
+    refine ⟨slash, trest ++ [lt] ++ id ++ [gt], by simp [printObj, printNode], by decide, by decide, ?_⟩
+    intro c hc
+    have : (slash :: (trest ++ [lt] ++ id ++ [gt])).getLast? = some gt := by
+      have e : slash :: (trest ++ [lt] ++ id ++ [gt]) = (slash :: (trest ++ [lt] ++ id)) ++ [gt] := by simp
+      rw [e]; exact getLast?_append_singleton _ _
+    rw [this] at hc; cases hc; decide
+  | lit l =>
+    obtain ⟨v, tname, hf, hd, hne, hlast⟩ := printLit_form L l
+    refine ⟨dq, v ++ sepLit ++ tname, by simp [printObj, hf], by decide, by decide, ?_⟩
+    intro c hc
+    have e : (dq :: (v ++ sepLit ++ tname)).getLast? = tname.getLast? := by
+      have e1 : dq :: (v ++ sepLit ++ tname) = (dq :: (v ++ sepLit)) ++ tname := by simp
+      rw [e1, List.getLast?_eq_head?_reverse, List.getLast?_eq_head?_reverse, List.reverse_append]
+      cases hr : tname.reverse with
+      | nil => exact absurd (List.reverse_eq_nil_iff.mp hr) hne
+      | cons x xs => simp
+    rw [e] at hc
+    exact hlast c hc
+  | pred p =>
+    obtain ⟨body, hq⟩ := hL.quote_shape p.id
+    cases p with
+    | imm i =>
+      simp only [Pred.id] at hq
+      refine ⟨dq, body ++ [dq] ++ [64, 91, rb], by simp [printObj, printPred, hq], by decide, by decide, ?_⟩
+      intro c hc
+      have : (dq :: (body ++ [dq] ++ [64, 91, rb])).getLast? = some rb := by
+        have e : dq :: (body ++ [dq] ++ [64, 91, rb]) = (dq :: (body ++ [dq] ++ [64, 91])) ++ [rb] := by simp
+        rw [e]; exact getLast?_append_singleton _ _
+      rw [this] at hc; cases hc; decide
+    | tmp i t =>
+      simp only [Pred.id] at hq
+      refine ⟨dq, body ++ [dq] ++ [64, 91] ++ L.fmtTime t ++ [rb], by simp [printObj, printPred, hq], by decide, by decide, ?_⟩
+      intro c hc
+      have : (dq :: (body ++ [dq] ++ [64, 91] ++ L.fmtTime t ++ [rb])).getLast? = some rb := by
+        have e : dq :: (body ++ [dq] ++ [64, 91] ++ L.fmtTime t ++ [rb]) = (dq :: (body ++ [dq] ++ [64, 91] ++ L.fmtTime t)) ++ [rb] := by simp
+        rw [e]; exact getLast?_append_singleton _ _
+      rw [this] at hc; cases hc; decide
+
+theorem parseTriple_printTriple (L : Leaf) (hL : LeafLaws2 L) (t : Triple)
+    (hs : NodeOK t.s) (hsty : noSpace t.s.ty) (hsid : noSpace t.s.id) (hp : noSpace t.p.id) (ho : ObjOK t.o) :
+    parseTriple L (printTriple L t) = some t := by
+  obtain ⟨s, p, o⟩ := t
+  simp only at hs hsty hsid hp ho
+  obtain ⟨pb, hP, hPns⟩ := printPred_shape L hL p hp
+  obtain ⟨oh, orest, hO, hohn, hohs, holast⟩ := printObj_head L hL.toLeafLaws o ho
+  -- the subject: N0 ++ [gt], with no white space in N0, starting with '/'
+  have hty := hs.ty
+  have hhead : s.ty.head? = some slash := by
+    simp only [validType, Bool.and_eq_true, beq_iff_eq] at hty
+    exact hty.1.1.2
+  let N0 := s.ty ++ [lt] ++ s.id
+  have hN : printNode s = N0 ++ [gt] := by simp [printNode, N0]
+  have hN0ns : ∀ x ∈ N0, reSpace x = false := by
+    intro x hx
+    simp only [N0, List.mem_append, List.mem_singleton] at hx
+    rcases hx with (hx | rfl) | hx
+    · exact hsty x hx
+    · decide
+    · exact hsid x hx
+  have hraw : printTriple L ⟨s, p, o⟩ = N0 ++ gt :: ([tab] ++ dq :: (pb ++ rb :: ([tab] ++ oh :: orest))) := by
+    simp only [printTriple, hN, hP, hO]
+    simp
+  have hN0head : N0.head? = some slash := by
+    cases hty' : s.ty with
+    | nil => rw [hty'] at hhead; simp at hhead
+    | cons c r => rw [hty'] at hhead; simp only [N0, hty', List.cons_append, List.head?_cons] at hhead ⊢; exact hhead
+  -- trimming changes nothing
+  have htrim : trim (N0 ++ gt :: ([tab] ++ dq :: (pb ++ rb :: ([tab] ++ oh :: orest)))) =
+      N0 ++ gt :: ([tab] ++ dq :: (pb ++ rb :: ([tab] ++ oh :: orest))) := by
+    apply trim_id
+    · intro c hc
+      cases hN0' : N0 with
+      | nil => rw [hN0'] at hN0head; simp at hN0head
+      | cons x xs =>
+        rw [hN0'] at hc hN0head
+        simp only [List.cons_append, List.head?_cons, Option.some.injEq] at hc hN0head
+        rw [← hc, hN0head]; decide
+    · intro c hc
+      have e : (N0 ++ gt :: ([tab] ++ dq :: (pb ++ rb :: ([tab] ++ oh :: orest)))).getLast? = (oh :: orest).getLast? := by
+        have e1 : N0 ++ gt :: ([tab] ++ dq :: (pb ++ rb :: ([tab] ++ oh :: orest))) =
+            (N0 ++ gt :: ([tab] ++ dq :: (pb ++ rb :: [tab]))) ++ (oh :: orest) := by simp
+        rw [e1, List.getLast?_eq_head?_reverse, List.getLast?_eq_head?_reverse, List.reverse_append]
+        cases hr : (oh :: orest).reverse with
+        | nil => simp at hr
+        | cons x xs => simp
+      rw [e] at hc
+      exact holast c hc
+  -- first split: the end of the subject
+  have hsplit1 := findSplit_first gt dq [dq] N0 [tab] (pb ++ rb :: ([tab] ++ oh :: orest)) 0 hN0ns (by decide)
+    (by intro x hx; simp only [List.mem_singleton] at hx; subst hx; decide) (by simp) (by decide) (by decide)
+  -- second split: the end of the predicate
+  have hsplit2 := findSplit_first rb oh [slash, dq] (dq :: pb) [tab] orest 0 hPns (by decide)
+    (by intro x hx; simp only [List.mem_singleton] at hx; subst hx; decide) (by simp) hohs hohn
+  unfold parseTriple parseTripleWith
+  rw [hraw]
+  simp only [htrim]
+  have e1 : N0 ++ gt :: ([tab] ++ dq :: (pb ++ rb :: ([tab] ++ oh :: orest))) =
+      N0 ++ gt :: ([tab] ++ dq :: (pb ++ rb :: ([tab] ++ oh :: orest))) := rfl
+  rw [hsplit1]
+  simp only [Nat.zero_add, List.length_singleton]
+  -- what is left after the subject and its separator
+  have hdrop1 : (N0 ++ gt :: ([tab] ++ dq :: (pb ++ rb :: ([tab] ++ oh :: orest)))).drop (N0.length + 1 + 1 + 1 - 1) =
+      (dq :: pb) ++ rb :: ([tab] ++ oh :: orest) := by
+    have : N0.length + 1 + 1 + 1 - 1 = (N0 ++ [gt, tab]).length := by simp
+    rw [this]
+    have e : N0 ++ gt :: ([tab] ++ dq :: (pb ++ rb :: ([tab] ++ oh :: orest))) = (N0 ++ [gt, tab]) ++ ((dq :: pb) ++ rb :: ([tab] ++ oh :: orest)) := by simp
+    rw [e, drop_left']
+  rw [hdrop1, hsplit2]
+  simp only [Nat.zero_add, List.length_singleton]
+  have hss : (N0 ++ gt :: ([tab] ++ dq :: (pb ++ rb :: ([tab] ++ oh :: orest)))).take (N0.length + 1) = printNode s := by
+    rw [hN]
+    have e : N0 ++ gt :: ([tab] ++ dq :: (pb ++ rb :: ([tab] ++ oh :: orest))) = (N0 ++ [gt]) ++ ([tab] ++ dq :: (pb ++ rb :: ([tab] ++ oh :: orest))) := by simp
+    have hl : N0.length + 1 = (N0 ++ [gt]).length := by simp
+    rw [e, hl, take_left']
+  have hsp : ((dq :: pb) ++ rb :: ([tab] ++ oh :: orest)).take ((dq :: pb).length + 1) = printPred L p := by
+    rw [hP]
+    have e : (dq :: pb) ++ rb :: ([tab] ++ oh :: orest) = ((dq :: pb) ++ [rb]) ++ ([tab] ++ oh :: orest) := by simp
+    have hl : (dq :: pb).length + 1 = ((dq :: pb) ++ [rb]).length := by simp
+    rw [e, hl, take_left']
+    simp
+  have hso : (N0 ++ gt :: ([tab] ++ dq :: (pb ++ rb :: ([tab] ++ oh :: orest)))).drop
+      (N0.length + 1 + 1 + 1 - 1 + ((dq :: pb).length + 1 + 1 + 1) - 1) = printObj L o := by
+    rw [hO]
+    have hl : N0.length + 1 + 1 + 1 - 1 + ((dq :: pb).length + 1 + 1 + 1) - 1 = (N0 ++ [gt, tab] ++ (dq :: pb) ++ [rb, tab]).length := by
+      simp; omega
+    have e : N0 ++ gt :: ([tab] ++ dq :: (pb ++ rb :: ([tab] ++ oh :: orest))) = (N0 ++ [gt, tab] ++ (dq :: pb) ++ [rb, tab]) ++ (oh :: orest) := by simp
+    rw [hl, e, drop_left']
+  rw [hss, hsp, hso]
+  have r1 := parseNode_printNode s hs
+  have r2 := parsePred_printPred L hL.toLeafLaws p
+  have r3 := parseObject_printObj L hL.toLeafLaws o ho
+  unfold parseObject at r3
+  simp only [r1, r2, r3]
+
+/-! ### Graphs: WriteGraph then ReadIntoGraph -/
+
+/-- A printed triple of the line protocol: no line feed inside, not ending with a carriage return. -/
+structure LineOK (L : Leaf) (t : Triple) : Prop where
+  noLF : (10 : UInt8) ∉ printTriple L t
+  roundTrip : parseTriple L (printTriple L t) = some t
+  notBlank : (trim (printTriple L t)).isEmpty = false
+  noCR : (printTriple L t).getLast? ≠ some 13
+
+theorem splitLines_writeLines (L : Leaf) (ts : List Triple) (h : ∀ t ∈ ts, LineOK L t) :
+    splitLines (writeLines L ts) = ts.map (printTriple L) ++ [[]] := by
+  induction ts with
+  | nil => simp [splitLines, writeLines, splitOn]
+  | cons t ts ih =>
+    have ht := h t (by simp)
+    have ih' := ih (fun x hx => h x (List.mem_cons_of_mem _ hx))
+    have e : writeLines L (t :: ts) = printTriple L t ++ 10 :: writeLines L ts := by
+      simp [writeLines]
+    unfold splitLines at ih' ⊢
+    rw [e, splitOn_append_sep 10 _ _ ht.noLF]
+    simp only [List.map_cons, List.cons_append]
+    rw [ih']
+    congr 1
+    split
+    · rename_i hl; exact absurd hl ht.noCR
+    · rfl
+
+theorem readLines_append_blank (L : Leaf) (ls : List Bytes) : readLines L (ls ++ [[]]) = readLines L ls := by
+  induction ls with
+  | nil => simp [readLines, trim]
+  | cons l ls ih =>
+    simp only [List.cons_append]
+    unfold readLines
+    rw [ih]
+
+/-- Writing a graph as text and reading the text back loads exactly the triples written, in order,
+    and reports their number, with no error — provided no printed triple contains a line feed. -/
+theorem read_write_round_trip (L : Leaf) (ts : List Triple) (h : ∀ t ∈ ts, LineOK L t) :
+    readLines L (splitLines (writeLines L ts)) = (ts, ts.length, false) := by
+  rw [splitLines_writeLines L ts h, readLines_append_blank]
+  induction ts with
+  | nil => simp [readLines]
+  | cons t ts ih =>
+    have ht := h t (by simp)
+    have ih' := ih (fun x hx => h x (List.mem_cons_of_mem _ hx))
+    simp only [List.map_cons]
+    unfold readLines
+    simp only [ht.notBlank, Bool.false_eq_true, if_false, ht.roundTrip, ih', List.length_cons]
+
+
 end BW.Proofs.Text
